@@ -64,7 +64,7 @@ def obs_kind(path):
 
 
 def run_twin(case, compare_sections=('params', 'rg', 'flags', 'grads'), probe_forward_first=True,
-             on_restore=None, double_export=False):
+             on_restore=None, double_export=False, construction_layout='skip'):
     """returns result dict (failures carry 'clause','sig','msg')."""
     cfg = case['cfg']
     run_seed = case['run_seed']
@@ -116,7 +116,24 @@ def run_twin(case, compare_sections=('params', 'rg', 'flags', 'grads'), probe_fo
     r0s = W.pure_reads(S.model)
     d0 = W.compare_reads(r0s, r0r, ('params', 'bufs', 'rg', 'flags'))
     if d0:
-        raise RuntimeError(f'harness: twin replicas differ right after construction: {d0[:3]}')
+        # same keys and shapes but other values: the harness is not deterministic. Other keys or shapes: two wrappers
+        # built by the same script in ONE process do not have the same state_dict layout (naming or sizing that depends
+        # on what was built before / on addresses) - a checkpoint of one cannot be loaded into the other
+        lay_r = {sec: {n: tuple(v.shape) for n, v in r0r[sec].items()} for sec in ('params', 'bufs')}
+        lay_s = {sec: {n: tuple(v.shape) for n, v in r0s[sec].items()} for sec in ('params', 'bufs')}
+        if lay_r == lay_s:
+            raise RuntimeError(f'harness: twin replicas differ right after construction: {d0[:3]}')
+        only_r = sorted(set(lay_r['params']) | set(lay_r['bufs']) - set(lay_s['params']) - set(lay_s['bufs']))
+        only_s = sorted((set(lay_s['params']) | set(lay_s['bufs'])) - set(lay_r['params']) - set(lay_r['bufs']))
+        only_r = [n for n in only_r if n not in lay_s['params'] and n not in lay_s['bufs']]
+        shp = [n for sec in ('params', 'bufs') for n in lay_r[sec] if n in lay_s[sec] and lay_r[sec][n] != lay_s[sec][n]]
+        stats['construction_layout_differs_between_two_wrappers_of_one_process'] = 1
+        if construction_layout == 'fail':
+            fail('two wrappers constructed by the same script in one process do not have the same state_dict keys / '
+                 'shapes: the checkpoint of one cannot be loaded into the other',
+                 'restore-keys', f'only_first={only_r[:4]} only_second={only_s[:4]} shape_mismatch={shp[:4]}', 'construction')
+        return {'failures': failures, 'events': ['construction: state_dict layouts differ'], 'stats': stats, 'steps': 0,
+                'nontrivial': False, 'shape': shape_of(case), 'sim_time': 0}
     last_fault = None         # label of the most recent injected fault (culprit of a later divergence)
     fault_since_state_op = False
     nontrivial = False
